@@ -8,6 +8,8 @@ extracted list.
 -/
 import Golib.Gen.FactsC01
 import Golib.Model.C01Ring
+import Golib.Model.C01Wait
+import Golib.Model.C01Heap
 
 namespace Golib.C01
 
@@ -31,5 +33,13 @@ theorem facts_store_exprs :
     (step cfg32x2 { oneElem with threads := [⟨.pushStore 1 4294967295, []⟩] } 0).2.acc = .stSeq 1 0 ∧
     (step cfg32x2 { oneElem with threads := [⟨.popStore 0 4294967295 7, []⟩] } 0).2.acc = .stSeq 0 0 := by
   decide
+
+/-- the waiting forms have the control shape the model `waitCall` mirrors: in the ticker
+loop the attempt's result is tested before the deadline -/
+theorem facts_wait_shape :
+    Gen.C01.pushWaitShape = waitShape ∧ Gen.C01.popWaitShape = waitShape := by decide
+
+/-- `Init` unconditionally allocates its slot array (`World.init`) -/
+theorem facts_init_allocates : Gen.C01.initValues = initValuesShape := by decide
 
 end Golib.C01
